@@ -768,7 +768,7 @@ func (ex *Executor) makeSlice(st *State, fr *frame, x *ssa.MakeSlice) Value {
 		// symbolic length slice of scalars, zero-initialised content is not
 		// tracked (content is arbitrary: over-approximation)
 		arr := ex.Fresh("mkarr", SArr(SInt, es))
-		return &SymSliceV{Arr: arr, Len: ln, ElemT: st1.Elem()}
+		return ex.newSymSlice(st, arr, ln, st1.Elem())
 	}
 	st.Note("make slice of %s with symbolic length", st1.Elem())
 	return ex.Fresh("mkslice", SInt)
